@@ -78,13 +78,14 @@ def model_check(ctx, known):
         ("1thr-ent2-depth3-scopes", (1, 2, 0, 3, 60), ["on", "off"], [1], ["valid"], False),
     ]
     if thorough:
+        # (2 threads x stack depth 2 x >= 2 entities has 10^7 states with freely destroyable scopes: only 1 entity there)
         runs += [
             ("2thr-ent3-depth1", (2, 3, 1, 1, 60), s4, [0, 1, 255], ["valid", "zero"], False),
-            ("2thr-ent2-all-depth2", (2, 2, 1, 2, 60), ALL_S, ALL_F, ALL_FORMS, False),
+            ("2thr-ent1-depth2-scopes", (2, 1, 0, 2, 60), ["on", "off"], [1], ["valid"], False),
             ("1thr-ent3-all-samplers", (1, 3, 1, 1, 60), ALL_S, [0, 1, 255], ["valid", "zero"], False),
-            ("2thr-ent3-depth2", (2, 3, 1, 2, 60), s4, [0, 1, 255], ["valid", "zero"], False),
+            ("1thr-ent3-depth3-scopes", (1, 3, 1, 3, 60), ["on", "off"], [1], ["valid"], False),
             ("2thr-ent3-2remotes", (2, 3, 2, 1, 60), s5, [0, 3], ["valid", "nospan"], False),
-            ("1thr-ent4", (1, 4, 1, 2, 60), ["off", "pb_on", "c_RO_2"], [1, 255], ["valid", "zero"], False),
+            ("1thr-ent4", (1, 4, 1, 1, 60), ["off", "pb_on", "c_RO_2"], [1, 255], ["valid", "zero"], False),
         ]
     fams = [("ideal", set())] + ([("as-implemented", known)] if known else [])
     jobs = []
@@ -92,7 +93,7 @@ def model_check(ctx, known):
         for (name, shape, ss, fl, fo, cov) in runs:
             if fam != "ideal" and name not in (("2thr-ent2-all-samplers",) if not thorough else
                                                ("1thr-ent3-depth2", "2thr-ent2-all-samplers", "2thr-ent3-depth1",
-                                                "2thr-ent2-all-depth2")):
+                                                "2thr-ent1-depth2-scopes")):
                 continue
             c = _cfg(ctx, "mc-%s-%s.cfg" % (fam, name), shape, ss, fl, fo, dev=dev)
             jobs.append((fam, name, c, cov and fam == "ideal"))
